@@ -191,6 +191,21 @@ def link_schema(expr) -> dict:
     return raw
 
 
+def _work_link(shape: dict) -> str:
+    """Is a link of this shape refused when the state machine is built? -> 'rejected' / 'accepted'."""
+    import schemathesis
+
+    target = {"id": {"operationId": "getUser"}, "ref": {"operationRef": "#/paths/~1users~1{id}/get"},
+              "unknown-id": {"operationId": "noSuchOperation"}, "unknown-ref": {"operationRef": "#/paths/~1nowhere/get"}}[shape["target"]]
+    raw = copy.deepcopy(EVAL_RAW)
+    raw["paths"]["/users/{id}"]["post"]["responses"]["201"]["links"] = {"l": dict(target, parameters={shape["pname"]: "$response.body#/id"})}
+    try:
+        schemathesis.openapi.from_dict(raw).as_state_machine()
+    except Exception:
+        return "rejected"
+    return "accepted"
+
+
 def _work_construct(expr: str) -> str:
     """Is a link whose parameter is `expr` refused when the state machine is built? -> 'rejected' / 'accepted'."""
     import schemathesis
@@ -297,12 +312,40 @@ FAMILIES: dict[str, dict] = {
         "put": L(BY_ID("putUser"), {"id": "$response.body#/id"},
                  {"items": [{"sku": "$request.body#/name", "n": ["$response.body#/tags/1", "k"]}, "$statusCode"], "name": "$response.body#/name"}),
         "del": L(BY_REF("delete"), {"id": "$response.body#/id"}, {"items": [{"sku": "$response.body#/missing"}]})}}},
+    # a link body that is not an object: the whole body is one expression (type kept: an object) / an array (replaces the generated body)
+    "whole-body-expression": {"links": {"201": {
+        "put": L(BY_ID("putUser"), {"id": "$response.body#/id"}, "$response.body#/nested")}}},
+    "array-body": {"links": {"201": {
+        "put": L(BY_REF("put"), {"path.id": "$response.body#/id"}, ["$response.body#/id", {"k": "$response.body#/name"}, "x"])}}},
+    # the same links declared through the Python API (schema.add_link) instead of the document
+    "added-by-api": {"api": True, "links": {"201": {
+        "get": L(BY_ID("getUser"), {"id": "$response.body#/id", "query.q": "$response.header.X-Rid"}),
+        "put": L(BY_REF("put"), {"path.id": "$response.body#/nested/ids/0"}, {"name": "$response.body#/name", "tag": "api"})}}},
+    # positive AND negative data generation: link-supplied values still win
+    "two-links-both-modes": {"modes": "both", "links": {"201": {
+        "get": L(BY_ID("getUser"), {"id": "$response.body#/id", "query.q": "$response.header.X-Rid"}),
+        "put": L(BY_REF("put"), {"path.id": "$response.body#/nested/ids/0"}, {"name": "$response.body#/name", "tag": "second"})}}},
     # status routing: exact, wildcard and default keys next to documented keys without links
     "status-keys": {"links": {"201": {"exact": L(BY_ID("getUser"), {"id": "$response.body#/id", "query.via": "ex"})},
                               "4XX": {"wild": L(BY_ID("getUser"), {"id": "$response.body#/id", "query.via": "wi"})},
                               "default": {"dflt": L(BY_ID("getUser"), {"id": "$response.body#/id", "query.via": "df"})}},
                     "extra": ("200", "5XX"), "statuses": [201, 400, 404, 200, 500, 201, 422, 503, 299, 409]},
 }
+
+
+def build_schema(fam: dict):
+    """The family's document, loaded by the real loader; links come from the document or, for `api` families, from schema.add_link."""
+    import schemathesis
+
+    if not fam.get("api"):
+        return schemathesis.openapi.from_dict(live_schema(fam["links"], fam.get("extra", ())))
+    schema = schemathesis.openapi.from_dict(live_schema({}, tuple(fam["links"]) + tuple(fam.get("extra", ()))))
+    for key, ls in fam["links"].items():
+        for lname, ldef in ls.items():
+            target = {"getUser": schema["/users/{id}"]["GET"], "putUser": schema["/users/{id}"]["PUT"]}.get(ldef.get("operationId"), ldef.get("operationRef"))
+            schema.add_link(source=schema["/users"]["POST"], target=target, status_code=int(key) if key.isdigit() else key,
+                            parameters=ldef.get("parameters"), request_body=ldef.get("requestBody"), name=lname)
+    return schema
 
 
 def run_live(name: str, fam: dict, seed: int, examples: int) -> list[dict]:
@@ -317,7 +360,8 @@ def run_live(name: str, fam: dict, seed: int, examples: int) -> list[dict]:
     from .server import LoopbackServer
 
     enable_links()
-    raw = live_schema(fam["links"], fam.get("extra", ()))
+    from schemathesis.generation import GenerationConfig, GenerationMode
+
     statuses = fam.get("statuses", [201])
     sent: dict[int, tuple] = {}
     counter = [0]
@@ -340,9 +384,10 @@ def run_live(name: str, fam: dict, seed: int, examples: int) -> list[dict]:
     all_keys = sorted(set(fam["links"]) | set(fam.get("extra", ())))
     records = []
     with LoopbackServer(behaviour) as srv:
-        schema = schemathesis.openapi.from_dict(raw).configure(base_url=srv.base_url)
+        schema = build_schema(fam).configure(base_url=srv.base_url)
+        generation = GenerationConfig(modes=[GenerationMode.POSITIVE, GenerationMode.NEGATIVE]) if fam.get("modes") == "both" else GenerationConfig()
         cfg = EngineConfig(execution=ExecutionConfig(
-            phases=[PhaseName.STATEFUL_TESTING], checks=[], seed=seed,
+            phases=[PhaseName.STATEFUL_TESTING], checks=[], seed=seed, generation=generation,
             hypothesis_settings=hypothesis.settings(max_examples=examples, deadline=None, database=None, derandomize=True,
                                                     suppress_health_check=list(hypothesis.HealthCheck))))
         recorders = []
@@ -388,7 +433,7 @@ def run_extract(name: str, fam: dict) -> list[dict]:
     from schemathesis.specs.openapi.stateful.links import get_all_links
 
     base = "http://127.0.0.1/api"
-    schema = schemathesis.openapi.from_dict(live_schema(fam["links"], fam.get("extra", ()))).configure(base_url=base)
+    schema = build_schema(fam).configure(base_url=base)
     op = schema["/users"]["POST"]
     real = {}
     for key, res in get_all_links(op):
@@ -399,10 +444,10 @@ def run_extract(name: str, fam: dict) -> list[dict]:
     req = requests.Request("POST", base + "/users").prepare()
     container = {"path": "path_parameters", "query": "query", "header": "headers"}
 
-    def record(kl: tuple, tr, status: int, case, position: str) -> dict:
+    def record(kl: tuple, tr, status: int, case, position: str, is_json: bool = True) -> dict:
         ldef = fam["links"][kl[0]][kl[1]]
         x = {"method": cps("POST"), "url": cps(base + "/users"), "status": status, "path": [], "query": [], "headers": [],
-             "body": enc(case.body), "rheaders": _pairs(rheaders), "rbody": enc(rbody)}
+             "body": enc(case.body), "rheaders": _pairs(rheaders), "rbody": enc(rbody) if is_json else {"t": "text"}}
         params = []
         for pname, expr in (ldef.get("parameters") or {}).items():
             loc, _, n = pname.partition(".") if "." in pname else ("", "", pname)
@@ -430,6 +475,11 @@ def run_extract(name: str, fam: dict) -> list[dict]:
             first = real[a].extract(output)
             if b is None:
                 out.append(record(a, first, status, case, "alone"))
+                # the same link on a response whose payload is not JSON: nothing of $response.body may be passed on
+                case2 = op.Case(body={"name": "ab"}, media_type="application/json")
+                plain = StepOutput(Response(status_code=status, headers={k.lower(): [v] for k, v in rheaders}, content=b"oops, not JSON",
+                                            request=req, elapsed=0.0, verify=False), case2)
+                out.append(record(a, real[a].extract(plain), status, case2, "alone", is_json=False))
             else:
                 out.append(record(b, real[b].extract(output), status, case, "after-another-link-on-the-same-output"))
     return out
@@ -510,6 +560,8 @@ def py_eval(expr: str, x: dict):
     m = re.fullmatch(r"\$(request|response)\.body(?:#(.*))?", expr)
     if m:
         doc = x["body" if m.group(1) == "request" else "rbody"]
+        if doc["t"] == "text":
+            return _MISSING
         return _py_ptr(dec(doc), m.group(2) or "")
     m = re.fullmatch(r"\$response\.header\.([A-Za-z-]+)(?:#regex:(.*)\(\.\+\))?", expr)
     if m:
@@ -549,7 +601,7 @@ def py_live_verdicts(r: dict) -> set:
     for n, p in enumerate(r["params"], 1):
         v = py_eval(txt(p["expr"]), r["x"])
         if v is _MISSING:
-            if "Unresolvable" in txt(p["text"]):
+            if "Unresolvable" in txt(p["text"]) or (r["body"].get("strict") and p["sent"]):
                 bad.add(("live-param", n))
         elif isinstance(v, (str, int)) and not isinstance(v, bool):
             if not p["sent"] or txt(p["text"]) != str(v):
@@ -663,24 +715,28 @@ def expr_signature(exp: dict, o: dict, expr: str, xid: str) -> str:
 
 # --------------------------------------------------------------------------------------------------
 TREES: list[tuple] = []  # (tree, exchange id, expected) of the last enumeration
+LINKS: list[tuple] = []  # (link shape, expected verdict)
 
 
 def _enumerate(cfg: str):
     cases, statuses, exchanges = [], [], {}
     TREES.clear()
+    LINKS.clear()
 
     def on(tag: str, c: dict) -> None:
         if tag == "CASE":
             cases.append((txt(c["e"]), c["x"], c["exp"]))
         elif tag == "TREE":
             TREES.append((c["tree"], c["x"], c["exp"]))
+        elif tag == "LINK":
+            LINKS.append((c["link"], c["exp"]))
         elif tag == "STATUS":
             statuses.append((c["key"], tuple(sorted(c["keys"])), sorted(c["matched"])))
         elif tag == "EXCHANGE":
             exchanges.update(c)
 
     res = tlc.require_ok(tlc.run_tlc("Links", cfg, workers=16, timeout=3000, on_json=on, want_prints=False), "Links enumeration")
-    if len({(c[0], c[1]) for c in cases}) != len(cases) or len(cases) + len(statuses) + len(TREES) != res.distinct // 2 or not exchanges:
+    if len({(c[0], c[1]) for c in cases}) != len(cases) or len(cases) + len(statuses) + len(TREES) + len(LINKS) != res.distinct // 2 or not exchanges:
         raise tlc.TLCFailure("Links export incomplete: %d expression cases, %d status cases, %d states" % (len(cases), len(statuses), res.distinct))
     return res, cases, statuses, exchanges
 
@@ -715,6 +771,8 @@ def run(ctx: Ctx) -> Outcome:
     obs = common.pmap(_work_expr, [(c[0], c[1]) for c in cases])
     trees = list(TREES)
     tobs = common.pmap(_work_tree, [(t[0], t[1]) for t in trees])
+    shapes = list(LINKS)
+    sobs = [_work_link(sh[0]) for sh in shapes]
     # (b') malformed expressions as link parameters: the state machine must refuse the schema
     malformed = sorted({c[0] for c in cases if c[2]["k"] == "malformed"})
     if ctx.quick:  # building a state machine per expression is the slowest step: quick takes a seeded third, thorough all
@@ -744,6 +802,7 @@ def run(ctx: Ctx) -> Outcome:
     dis_build = [e for e, r in built.items() if r != "rejected" and e not in parse_accepts]
     dis_status = [i for i, (s, m) in enumerate(zip(statuses, matched)) if not set(m) <= set(s[2])]
     dis_tree = [i for i, (t, o) in enumerate(zip(trees, tobs)) if not agree_expr(t[2], o)]
+    dis_link = [i for i, (sh, o) in enumerate(zip(shapes, sobs)) if sh[1] not in ("U", o)]
     incomplete_status = sum(1 for s, m in zip(statuses, matched) if set(m) != set(s[2]))
 
     # ---- code -> spec: TLC judges all disagreements, a sample of agreeing expression observations, every status and live observation
@@ -754,11 +813,13 @@ def run(ctx: Ctx) -> Outcome:
     n_expr = len(records)
     records += [{"kind": "status", "key": s[0], "keys": list(s[1]), "matched": m} for s, m in zip(statuses, matched)]
     records += [{"kind": "tree", "tree": t[0], "x": _EXCHANGES[t[1]], "obs": {"k": o["k"], "v": o["v"]}} for t, o in zip(trees, tobs)]
-    n_status = len(statuses) + len(trees)
+    records += [{"kind": "link", "link": sh[0], "obs": o} for sh, o in zip(shapes, sobs)]
+    n_status = len(statuses) + len(trees) + len(shapes)
     records += [_clean_live(r) for r in live_records]
     jres, tlc_dis = _judge(ctx, records)
     py_dis = {(n, "expr", 0) for n, i in enumerate(chosen, 1) if i in dset} | {(n_expr + 1 + i, "status", 0) for i in dis_status}
     py_dis |= {(n_expr + len(statuses) + 1 + i, "tree", 0) for i in dis_tree}
+    py_dis |= {(n_expr + len(statuses) + len(trees) + 1 + i, "link", 0) for i in dis_link}
     tlc_live = {d for d in tlc_dis if d[1].startswith("live")}
     base_n = n_expr + n_status
     py_dis |= {(base_n + 1 + n, what, idx) for n, r in enumerate(live_records) for what, idx in py_live_verdicts(r)}
@@ -791,6 +852,12 @@ def run(ctx: Ctx) -> Outcome:
             json.dumps(dec(tree)), xid, exp["k"], " " + json.dumps(dec(exp["v"])) if exp["k"] == "val" else "", o["k"],
             " " + json.dumps(dec(o["v"])) if o["k"] == "val" and o["v"]["t"] != "opaque" else ""),
             {"kind": "tree", "tree": tree, "x": xid, "exp": exp, "exchange": exchanges[xid]})
+    for i in dis_link:
+        sh, exp = shapes[i]
+        emit("C10:link-construction:%s:target=%s,parameter=%s" % ("unusable-link-accepted" if exp == "rejected" else "usable-link-rejected", sh["target"],
+                                                                  "explicit" if "." in sh["pname"] else "implicit"),
+             "a link with target %s and parameter %r is %s when the state machine is built (spec: %s)" % (sh["target"], sh["pname"], sobs[i], exp),
+             {"kind": "link", "link": sh, "exp": exp})
     for i in dis_status:
         key, keys, exp_m = statuses[i]
         extra = sorted(set(matched[i]) - set(exp_m))
@@ -850,7 +917,7 @@ def run(ctx: Ctx) -> Outcome:
         "distinct_nontrivial": len(cases) - kinds.get("U", 0) + len(statuses) + len(live_records) + len(trees),
         "expression_cases": len(cases), "expected_kinds": kinds, "skipped_outside_fragment": kinds.get("U", 0),
         "status_cases": len(statuses), "status_codes_per_case": 500, "status_key_sets_where_real_matcher_is_narrower_than_spec": incomplete_status,
-        "malformed_as_link_parameter": len(malformed), "value_tree_cases": len(trees),
+        "malformed_as_link_parameter": len(malformed), "value_tree_cases": len(trees), "link_shape_cases": len(shapes),
         "extract_records": len(extract_records),
         "live": {"families": {f["family"]: {"requests": f["requests"], "link_derived": len(f["records"]), "engine_errors": len(f["errors"])} for f in live},
                  "derived_requests_by_family_and_key": live_keys},
@@ -899,6 +966,9 @@ def replay(ctx: Ctx, data: dict) -> Outcome:
             out.violations.append(Violation("C10:status:followed-from-non-matching:key=%s" % (
                 "default" if data["key"] == "default" else "NXX" if "X" in data["key"].upper() else "exact"),
                 "statuses %s" % sorted(set(m) - set(data["expected"]))[:8], data))
+    elif kind == "link":
+        if data["exp"] not in ("U", _work_link(data["link"])):
+            out.violations.append(Violation("C10:link-construction:%s" % data["link"]["target"], "reproduced", data))
     elif kind == "tree":
         _EXCHANGES[data["x"]] = data["exchange"]
         o = observe_tree(data["tree"], data["x"])
